@@ -88,6 +88,7 @@ func init() {
 			opts.MaxDepth = 1 + d.N(2)
 			opts.MaxTasks = 3 + d.N(6)
 			opts.DataConds = d.Bool()
+			opts.StartFork = d.Bool()
 			prog := GenProgram(d, opts)
 			c := &ProcCase{Prog: prog, Buf: d.N(17), Hold: d.N(3)}
 			c.Picks = drawPicks(d, 48)
